@@ -47,6 +47,12 @@ def run(chk):
         dict(flavour="asan-ubsan", scen="full", runs=(64, 4000), opts={"cb": 2, "globalDomain": 1, "hugeArea": 1, "maxMovable": 30, "utilHi": 0.9, "multiRow": 0,
                                                                       "timeout": chk.pick(40, 300)}),
         dict(flavour="asan-ubsan", scen="det", runs=(96, 6000), opts={"cb": 2, "translate": 1, "maxMovable": 16, "timeout": chk.pick(40, 300)}),
+        # large designs far beyond feasible density (an excess of several times 2^31 units of area), assertions enabled
+        dict(flavour="dbg", scen="glob", runs=(64, 3000), opts={"cb": 2, "globalDomain": 1, "hugeArea": 6, "maxMovable": 30, "utilLo": 2.5, "utilHi": 6, "multiRow": 0,
+                                                               "maxFixed": 3, "connectAll": 1, "timeout": chk.pick(40, 300)}),
+        # unit-area cells filling the rows (saturated lines of bins in the rough legalizer)
+        dict(flavour="asan-ubsan", scen="glob", runs=(96, 5000), opts={"cb": 2, "globalDomain": 1, "unitRows": 1, "utilLo": 0.8, "utilHi": 1.1, "maxMovable": 40,
+                                                                      "multiRow": 0, "maxFixed": 2, "timeout": chk.pick(40, 300)}),
     ]
     run_plan(chk, "C07", plan, nontrivial)
     chk.cov["rule"] = ("every case of the TLC-emitted table (13 degenerate shapes x magnitudes 2^0, 2^10, 2^16, 2^20, 2^22 x variants; cell areas < 2^31) and seeded "
